@@ -13,7 +13,7 @@ from .prims import Prims, module_env_from_ast
 REPO_DIR = os.environ.get("VERIF_REPO", REPO)
 
 
-def run_contract(contract, callees=None, timeout_ms=10000):
+def run_contract(contract, callees=None, timeout_ms=15000):
     prims = Prims()
     ex = Executor(REPO_DIR, contract, prims, callee_contracts=callees or {}, solver=Solver(timeout_ms))
     src = open(os.path.join(REPO_DIR, contract.file)).read()
